@@ -74,6 +74,7 @@ func runC06(ctx *core.Ctx, idx int) *core.Result {
 	}
 	matching := "@@\nvar x expression\n@@\n-bump(x)\n+bump(x + 1)\n"
 	var patches []string
+	guardFilePkg, guardFileImp := "", "" // kind C: the package / the import the files have instead of the guarded one
 	switch kind {
 	case "A-anchor-absent":
 		patches = append(patches, "# desc A\n@@\nvar x expression\n@@\n-zzNoSuchFn(x)\n+zzOther(x)\n")
@@ -89,13 +90,23 @@ func runC06(ctx *core.Ctx, idx int) *core.Result {
 			patches = append(patches, "@@\nvar n, y expression\n@@\n-var _ = tgtPair(n, y)\n+var n = y\n")
 		}
 	case "C-guard-fails":
+		// the guard is a near-miss of what the files have: package p vs p_test / pp / P, an import path that is a
+		// prefix or an extension of the imported one, a named import for an unnamed one
+		pkgPairs := [][2]string{{"zzotherpkg", "p"}, {"p", "p_test"}, {"p_test", "p"}, {"pp", "p"}, {"p", "pp"}, {"P", "p"}, {"main", "main_test"}}
+		pp := pkgPairs[r.Intn(len(pkgPairs))]
+		impPairs := [][2]string{{"\"example.com/zz/absent\"", ""}, {"\"example.com/zz\"", "\"example.com/zz/v2\""}, {"\"example.com/zz/v2\"", "\"example.com/zz\""},
+			{"zz \"example.com/zz\"", "\"example.com/zz\""}, {"\"example.com/zz\"", "zz \"example.com/zz\""}, {"\"example.com/zz\"", "_ \"example.com/zz\""}}
+		ip := impPairs[r.Intn(len(impPairs))]
 		switch r.Intn(3) {
 		case 0:
-			patches = append(patches, "# guarded\n@@\nvar x expression\n@@\n package zzotherpkg\n\n-bump(x)\n+bump(x + 1)\n")
+			patches = append(patches, "# guarded\n@@\nvar x expression\n@@\n package "+pp[0]+"\n\n-bump(x)\n+bump(x + 1)\n")
+			guardFilePkg = pp[1]
 		case 1:
-			patches = append(patches, "# guarded\n@@\nvar x expression\n@@\n import \"example.com/zz/absent\"\n\n-bump(x)\n+bump(x + 1)\n")
+			patches = append(patches, "# guarded\n@@\nvar x expression\n@@\n import "+ip[0]+"\n\n-bump(x)\n+bump(x + 1)\n")
+			guardFileImp = ip[1]
 		default:
-			patches = append(patches, "# guarded\n@@\nvar x expression\n@@\n-package zzotherpkg\n+package renamed\n\n-bump(x)\n+bump(x + 1)\n")
+			patches = append(patches, "# guarded\n@@\nvar x expression\n@@\n-package "+pp[0]+"\n+package renamed\n\n-bump(x)\n+bump(x + 1)\n")
+			guardFilePkg = pp[1]
 		}
 	case "D-near-miss":
 		patches = append(patches, "# near\n@@\nvar x expression\n@@\n-bump(x, 1)\n+bump(x + 1)\n")
@@ -141,6 +152,12 @@ func runC06(ctx *core.Ctx, idx int) *core.Result {
 		layout := "corpus"
 		if src == "" {
 			src = g.File(gen.FileOpts{Plants: plants})
+			if guardFilePkg != "" {
+				src = strings.Replace(src, "package p\n", "package "+guardFilePkg+"\n", 1)
+			}
+			if guardFileImp != "" {
+				src = strings.Replace(src, "package p\n", "package p\n\nimport "+guardFileImp+"\n", 1)
+			}
 			lk := r.Intn(12)
 			if lk == 10 && matched {
 				lk = 0 // --diff on a rewritten file with a line > 64 KiB is the known finding C12/diff-mode/line-too-long
